@@ -63,7 +63,7 @@ def run(ck, tier):
         c04._byte_lengths(c05._Sub(ck, "R-C01-units", ""), p)
     except Exception as e:
         ck.refuted("R-C01-units", "internal:%s" % type(e).__name__, "", "rule could not run: %s" % e)
-    for sub in (_consumers, _lexer, _loops, _spans, _precond, _total, _twin_scans):
+    for sub in (_consumers, _lexer, _loops, _spans, _precond, _total, _twin_scans, _md_breaks):
         try:
             sub(ck, p)
         except Exception as e:      # a rule that cannot run must not vouch
@@ -864,3 +864,40 @@ def _twin_scans(ck, p):
 def _call_roots(f, pv, op, depth=0, seen=None):
     from ..common import arg_roots
     return arg_roots(f, pv, op)
+
+
+def _md_breaks(ck, p):
+    """A Markdown block break is placed behind the tokens of the block it closes.  pulldown-cmark's End events carry the
+    range of the whole block, so the translator's cursor still points at the start of the block's last run of text when
+    the break is pushed; a break placed at the bare cursor precedes tokens of its own block, and a rule that builds
+    Span::new(first.span.start, last.span.end) over a sentence ending in that break (LongSentences) panics."""
+    rule = "R-C01-span"
+    fs = [f for f in p.fns.values() if keyname(p, f) == "<Markdown as Parser>::parse"]
+    if not ck.anchor(rule, "<Markdown as Parser>::parse", fs):
+        return
+    f = fs[0]
+    ck.saw(f)
+    from ..prov import Prov, flatten
+    from ..common import arg_roots
+    pv = Prov(f)
+    sites = []
+    for bi, b in enumerate(f.blocks):
+        if b["cleanup"]:
+            continue
+        for sx in b["s"]:
+            if sx["k"] == "assign" and sx["rv"]["k"] == "agg" and str(sx["rv"].get("name", "")).endswith("token::Token"):
+                kinds = [o for op in sx["rv"]["ops"] for o in pv.trace_operand(op) if o[0] == "agg" and o[1] == "adt" and "ParagraphBreak" in str(o)]
+                if kinds:
+                    sites.append((bi, sx))
+    if not ck.anchor(rule, "ParagraphBreak tokens built in Markdown::parse", sites):
+        return
+    for i, (bi, sx) in enumerate(sites):
+        span_op = sx["rv"]["ops"][0]
+        roots = arg_roots(f, pv, span_op)
+        names = {last(norm(o[3] or o[2] or "")) for o in roots if o[0] == "call"}
+        key = "<Markdown@Parser>::parse:break-placement%s" % ("" if i == 0 else ":%d" % i)
+        behind = bool(names & {"last", "max", "last_mut"}) or any("span" in str(o) and "end" in str(o) for o in flatten(pv.trace_operand(span_op)) if o[0] == "field")
+        if behind:
+            ck.proved(rule, key, f.loc(sx["ln"]), "the break's position derives from the end of the last token pushed (%s)" % sorted(names & {"last", "max", "new_with_len"}))
+        else:
+            ck.refuted(rule, key, f.loc(sx["ln"]), "the block break is placed at the bare cursor (%s): an End event carries the range of the whole block, so the cursor still points at the start of the block's last run of text and the break precedes tokens of its own block; a sentence slice that ends in it has last.span.end < first.span.start, and LongSentences' Span::new(first.start, last.end) panics for a sentence of more than 40 words that does not open its paragraph and has no full stop" % sorted(names))
